@@ -501,6 +501,9 @@ Tree Tree::flatten() const {
             } else if (auto t=std::get_if<TreeApply>(k.t)) {
                 todo.push({Task::UP, k.t, k.m});
                 todo.push({Task::DOWN, t->value.ptr, k.m});
+            } else {
+                // TreeInvalid: nothing to remap, keep the node as it is
+                out.push(Tree(k.t));
             }
         } else if (k.v == Task::UP) {
             if (auto t=std::get_if<TreeUnaryOp>(k.t)) {
